@@ -444,22 +444,21 @@ theorem readN_shift (p b : Buf) (pos n : Nat) (h : p.size + pos + n ≤ usizeMax
     readN (p ++ b) (p.size + pos) n = omap (fun r => (sh2 p.size r.1, p.size + r.2)) (readN b pos n) := by
   unfold readN
   simp only [size_shift]
-  have h1 : ¬ p.size + pos + n > usizeMax := by omega
-  have h2 : ¬ pos + n > usizeMax := by omega
+  have m1 : min (p.size + pos + n) usizeMax = p.size + pos + n := Nat.min_eq_left h
+  have m2 : min (pos + n) usizeMax = pos + n := Nat.min_eq_left (by omega)
   have h3 : p.size + pos < p.size + b.size := by omega
-  have h4 : ¬ (p.size + b.size = 0) := by omega
-  have h5 : ¬ (b.size = 0) := by omega
-  simp only [h1, h2, if_false, hpos, h3, if_true, h4, h5]
+  rw [m1, m2]
+  simp only [hpos, h3, if_true]
   by_cases hge : pos + n ≥ b.size
   · have hge' : p.size + pos + n ≥ p.size + b.size := by omega
-    simp only [hge, hge', if_true, Out.bind]
+    simp only [hge, hge', if_true]
     have e : p.size + b.size - 1 = p.size + (b.size - 1) := by omega
     rw [e, newSubstr_shift]
-    cases newSubstr b pos (b.size - 1) <;> simp [omap]
+    cases newSubstr b pos (b.size - 1) <;> simp [omap, Out.bind]
   · have hge' : ¬ p.size + pos + n ≥ p.size + b.size := by omega
-    simp only [hge, hge', if_false, Out.bind]
+    simp only [hge, hge', if_false]
     rw [Nat.add_assoc, newSubstr_shift]
-    cases newSubstr b pos (pos + n) <;> simp [omap]
+    cases newSubstr b pos (pos + n) <;> simp [omap, Out.bind]
 
 theorem remainingStart_shift (p b : Buf) (pos : Nat) :
     remainingStart (p ++ b) (p.size + pos) = omap (p.size + ·) (remainingStart b pos) := by
